@@ -1179,8 +1179,18 @@ E2E_COLS = [('a', 'int'), ('b', 'str'), ('d', 'date'), ('x', 'Decimal'), ('f', '
             ('b2', 'str')]
 E2E_PY = {'int': int, 'str': str, 'date': datetime.date, 'Decimal': D, 'bool': bool}
 E2E_FUNCS = {'abs': [['Decimal']], 'neg': [['Decimal']], 'safediv': None, 'length': [['str']], 'upper': None, 'lower': None,
-             'bool': None, 'int': [['Decimal']], 'decimal': [['int']], 'substr': None, 'count': None,
-             'sum': [['int'], ['Decimal']], 'first': None, 'last': None, 'min': None, 'max': None}
+             'bool': None, 'int': [['Decimal'], ['int'], ['str'], ['bool'], ['object']],
+             'decimal': [['int'], ['Decimal'], ['bool']], 'substr': None, 'count': None,
+             'sum': [['int'], ['Decimal']], 'first': None, 'last': None, 'min': None, 'max': None,
+             # bld-link: the C18 library linked into Eval.apply_func (the overloads Model/Typing.v types: the total ones)
+             'year': None, 'month': None, 'day': None, 'quarter': None, 'weekday': None, 'date_diff': None,
+             'date_part': None, 'date': None, 'str': None, 'root': None, 'parent': None, 'leaf': None,
+             'round': [['int', 'int'], ['int']]}
+# every registered function the lowering names (typed or not): statements using the untyped ones must come back
+# not-lowerable from the model, never as rows
+LIB_FUNCS = ['year', 'month', 'day', 'quarter', 'weekday', 'date_diff', 'date_part', 'date', 'str', 'int', 'decimal',
+             'root', 'parent', 'leaf', 'round', 'yearmonth', 'date_add', 'date_trunc', 'splitcomp', 'maxwidth', 'date_bin']
+LIB_UNTYPED = ['yearmonth', 'date_add', 'date_trunc', 'splitcomp', 'maxwidth', 'date_bin']
 
 
 def e2e_reg():
@@ -1254,7 +1264,143 @@ def e2e_cases(tier, rng):
                  'SELECT a, a IN (SELECT a2 FROM #v) AS i, a NOT IN (SELECT a2 FROM #v WHERE a2 > 100) AS e FROM #v ORDER BY 1',
                  'SELECT b, count(*) FROM #v WHERE a IN (SELECT max(a) FROM #v) OR b IN (SELECT b2 FROM #v) GROUP BY b ORDER BY b', 'SELECT a FROM #v WHERE b ~ "X" OR a2 IN (3, NULL) ORDER BY a DESC']:
         cases.append(dict(stream='e2e', rule='e2e:fixed', text=text, params=None, rows=rows))
+    return cases + e2e_lib_cases(tier, rng)
+
+
+LIB_B_POOL = ['Assets:Cash', 'Assets:Bank:Checking', 'Expenses:Food:Out', 'Income', 'Liabilities:Card', 'Assets', '', '12',
+              ' -7 ', '1_000', '+3', '1.5', '2020-01-15', '2020-02-30', '2021-1-5', '1999-12-31', 'x', 'year', 'Assets:']
+LIB_FIELDS = ['weekday', 'dow', 'isoweekday', 'isodow', 'week', 'month', 'quarter', 'year', 'isoyear', 'decade', 'century',
+              'millennium', 'epoch', 'bogus', 'Year']
+
+
+def lib_rows(rng):
+    """rows for the library stream: dates spread over weekdays / quarters / ISO-week edge cases, account-like and
+    number-like strings"""
+    nrows = rng.choice([0, 1, 3, 5, 7, 9, 12])
+    null_p = rng.choice([0.0, 0.1, 0.25])
+    edge = ['2020-12-31', '2021-01-01', '2021-01-03', '2021-01-04', '2019-12-30', '2024-02-29', '2000-01-01', '1999-12-31',
+            '2016-01-03', '2026-06-30', '2026-07-01', '0001-01-01', '9999-12-31', '1970-01-01']
+
+    def cell(t):
+        if rng.random() < null_p:
+            return None
+        if t == 'int':
+            return rng.choice([0, 1, 2, 3, 4, 5, 7, 11, 12, 13, 28, 29, 30, 31, 45, 155, -1, -15, 2020])
+        if t == 'str':
+            return rng.choice(LIB_B_POOL)
+        if t == 'date':
+            if rng.random() < 0.35:
+                return rng.choice(edge)
+            return datetime.date.fromordinal(rng.randint(728000, 743000)).isoformat()      # 1994 .. 2035
+        if t == 'Decimal':
+            return rng.choice(['0', '1.5', '-2.50', '100', '0.001', '-0.0', '12345.678', '1E+3', '7'])
+        return rng.random() < 0.5
+    return [[cell(t) for _, t in E2E_COLS] for _ in range(nrows)]
+
+
+def lib_expr(rng, ty, depth=1):
+    """a scalar expression of dtype ty over #v built from the library functions Model/Link.v lowers"""
+    ch = rng.choice
+    i = lambda: lib_expr(rng, 'int', depth - 1) if depth > 0 and rng.random() < 0.4 else ch(['a', 'a2', 'a', '3', '(a + 1)'])
+    st = lambda: lib_expr(rng, 'str', depth - 1) if depth > 0 and rng.random() < 0.4 else ch(['b', 'b2', 'b', "'Assets:Cash:Sub'", "'12'"])
+    dt = lambda: lib_expr(rng, 'date', depth - 1) if depth > 0 and rng.random() < 0.3 else ch(['d', 'd', 'd', '2020-02-29'])
+    if ty == 'int':
+        return ch([lambda: f'year({dt()})', lambda: f'month({dt()})', lambda: f'day({dt()})',
+                   lambda: f'date_diff({dt()}, {ch(["2020-06-15", "d", dt()])})',
+                   lambda: f'date_part({q_lit(ch(LIB_FIELDS))}, {dt()})', lambda: f'date_part({q_lit(ch(LIB_FIELDS))}, d)',
+                   lambda: f'int({st()})', lambda: f'int(str({i()}))', lambda: 'int(f)', lambda: f'int({i()})',
+                   lambda: f'round({i()})', lambda: f'round({i()} * 17, {ch(["-1", "-2", "0", "1", "a2 - 3", "-a2"])})',
+                   lambda: f'length(str({ch(["x", "x2", "d", "a", "f"])}))', lambda: f'length({st()})'])()
+    if ty == 'str':
+        return ch([lambda: f'quarter({dt()})', lambda: f'weekday({dt()})', lambda: f'str({i()})', lambda: 'str(x)', lambda: 'str(x2)',
+                   lambda: f'str({dt()})', lambda: 'str(f)', lambda: f'str({st()})', lambda: f'root({st()}, {i()})',
+                   lambda: f'root({st()})', lambda: f'root(b, {ch(["0", "1", "2", "3", "-1"])})', lambda: f'parent({st()})',
+                   lambda: f'leaf({st()})', lambda: f'upper(weekday({dt()}))', lambda: f'substr(str({dt()}), 0, {ch(["4", "7", "-3"])})'])()
+    if ty == 'date':
+        return ch([lambda: f'date({i()} + 2018, {i()}, {i()})', lambda: f'date(2020, {i()}, {i()})', lambda: f'date({st()})',
+                   lambda: f'date(str({dt()}))', lambda: f'date({dt()})', lambda: "date('2020-02-29')",
+                   lambda: f'date(year({dt()}), month({dt()}), 1)', lambda: f'date(year(d), {i()}, day(d))'])()
+    if ty == 'Decimal':
+        return ch([lambda: 'decimal(f)', lambda: 'decimal(x)', lambda: f'decimal({i()})', lambda: 'decimal(x2) + x'])()
+    if ty == 'bool':
+        return ch([lambda: f'year({dt()}) = {ch(["2020", "2021", "1999"])}', lambda: f'date_part({q_lit(ch(LIB_FIELDS))}, d) > {ch(["1", "6", "20"])}',
+                   lambda: 'length(str(x)) > 3', lambda: f"parent({st()}) = 'Assets'", lambda: f'int({st()}) > 0',
+                   lambda: f'date({st()}) IS NOT NULL', lambda: f'weekday({dt()}) = {q_lit(ch(["Mon", "Sun", "Fri"]))}',
+                   lambda: f"quarter({dt()}) >= '2020-Q3'", lambda: "root(b, 1) IN ('Assets', 'Income')",
+                   lambda: f"str({i()}) ~ '1'", lambda: f'month({dt()}) BETWEEN 3 AND 9', lambda: f'round({i()}, -1) = 10',
+                   lambda: f'bool(int({st()}))', lambda: f'{i()} > 1'])()
+    raise KeyError(ty)
+
+
+def q_lit(sv):
+    return "'" + sv + "'"
+
+
+def lib_statement(rng):
+    ch = rng.choice
+    tys = ['int', 'int', 'str', 'str', 'date', 'Decimal', 'bool']
+    shape = ch(['plain', 'plain', 'plain', 'group', 'group', 'distinct', 'aggonly', 'sub', 'untyped'])
+    where = f' WHERE {lib_expr(rng, "bool")}' if rng.random() < 0.45 else ''
+    if shape == 'plain':
+        ts = [lib_expr(rng, ch(tys), ch([0, 1, 1, 2])) for _ in range(ch([1, 2, 3]))]
+        ts = [t + (f' AS c{k}' if rng.random() < 0.3 else '') for k, t in enumerate(ts)]
+        order = ''
+        if rng.random() < 0.6:
+            keys = [ch([str(rng.randint(1, len(ts))), lib_expr(rng, ch(['int', 'str', 'date'])), 'a', 'b'])
+                    + ch(['', '', ' DESC']) for _ in range(ch([1, 2]))]
+            order = ' ORDER BY ' + ', '.join(keys)
+        limit = f' LIMIT {ch([0, 1, 2, 4])}' if order and rng.random() < 0.25 else ''
+        return shape, f'SELECT {", ".join(ts)} FROM #v{where}{order}{limit}'
+    aggs = ['count(*)', 'sum(a)', f'max({lib_expr(rng, "int")})', f'min({lib_expr(rng, "str")})', f'count({lib_expr(rng, "int")})',
+            'sum(round(a, -1))', f'first({lib_expr(rng, "str")})', f'last({lib_expr(rng, "date")})', f'max({lib_expr(rng, "date")})',
+            'sum(decimal(f))', 'sum(int(b))', 'count(date(b))']
+    if shape == 'group':
+        keys = [lib_expr(rng, ch(['int', 'str', 'date', 'bool']), ch([0, 1])) for _ in range(ch([1, 1, 2]))]
+        ags = [ch(aggs) for _ in range(ch([1, 2]))]
+        by = ', '.join(str(k + 1) for k in range(len(keys))) if rng.random() < 0.6 else ', '.join(keys)
+        having = f' HAVING {ch(["count(*) > 1", "max(year(d)) > 2000", "min(length(str(a))) < 2"])}' if rng.random() < 0.2 else ''
+        order = ' ORDER BY ' + ', '.join(str(k + 1) + ch(['', ' DESC']) for k in range(len(keys))) if rng.random() < 0.6 else ''
+        return shape, f'SELECT {", ".join(keys + ags)} FROM #v{where} GROUP BY {by}{having}{order}'
+    if shape == 'distinct':
+        e = lib_expr(rng, ch(['int', 'str', 'date']))
+        return shape, f'SELECT DISTINCT {e} FROM #v{where} ORDER BY 1{ch(["", " DESC"])}'
+    if shape == 'aggonly':
+        return shape, f'SELECT {", ".join(ch(aggs) for _ in range(ch([1, 2, 3])))} FROM #v{where}'
+    if shape == 'sub':
+        k = lib_expr(rng, ch(['int', 'str']), 0)
+        return shape, (f'SELECT k, n FROM (SELECT {k} AS k, count(*) AS n, max(d) AS m FROM #v{where} GROUP BY 1) '
+                       f'WHERE {ch(["n > 0", "year(m) > 2000", "k IS NOT NULL"])} ORDER BY k')
+    # the functions the typed model leaves out (they can raise): the model must answer not-lowerable
+    e = ch(['yearmonth(d)', 'date_add(d, a)', "date_trunc('month', d)", "splitcomp(b, ':', 0)", 'maxwidth(b, 10)',
+            "date_bin('1 month', d, 2020-01-01)", 'round(x, 1)', 'round(x)', 'decimal(b)', 'year(yearmonth(d))'])
+    return shape, f'SELECT {e}, a FROM #v{where}'
+
+
+def e2e_lib_cases(tier, rng):
+    n = 170 if tier == 'quick' else 2500
+    cases = []
+    for _ in range(n):
+        shape, text = lib_statement(rng)
+        cases.append(dict(stream='e2e', rule='e2e:lib:' + shape, text=text, params=None, rows=lib_rows(rng)))
     return cases
+
+
+LIB_CALL_RE = re.compile(r'\b(' + '|'.join(LIB_FUNCS) + r')\(')
+
+
+def lib_function_counts(cases, models):
+    """per library function: statements using it that were compared (model gave rows / rejection / raise), of which
+    statements whose rows were compared, and statements the model refused (not-lowerable)"""
+    out = {}
+    for c, m in zip(cases, models):
+        for fn in sorted(set(LIB_CALL_RE.findall(c['text']))):
+            d = out.setdefault(fn, {'compared': 0, 'rows': 0, 'not_lowerable': 0})
+            if m[0] == 3:
+                d['not_lowerable'] += 1
+            else:
+                d['compared'] += 1
+                d['rows'] += int(m[0] == 0)
+    return out
 
 
 def observe_e2e(case):
@@ -1332,7 +1478,17 @@ def run_e2e(tier, rng):
     for r in recs:
         if r['coq'] is None:
             hist['phase']['parse'] = hist['phase'].get('parse', 0) + 1
+    hist['library_functions'] = lib_function_counts([cases[i] for i in idx], models)
+    # the untyped library functions must never come back as rows from the model
+    for i, m in zip(idx, models):
+        used = set(LIB_CALL_RE.findall(cases[i]['text'])) & set(LIB_UNTYPED)
+        if used and m[0] != 3 and recs[i]['phase'] == 'ok' and len(violations) < 3:
+            sig = 'e2e-untyped:' + cases[i]['text'][:150]
+            violations[sig] = core.Violation('end-to-end', f'{cases[i]["text"]!r}: the model lowered a statement using '
+                                             f'{sorted(used)}, which Model/Typing.v leaves untyped', {'case': cases[i], 'model': m},
+                                             signature=sig)
     cov = {'e2e_statements': len(cases), 'e2e_compared': compared, 'e2e_rows_compared': rows_compared,
+           'e2e_library_statements': sum(1 for c in cases if c['rule'].startswith('e2e:lib')),
            'e2e_not_lowerable': sum(hist['not_lowerable_stage'].values()), 'e2e_histograms': hist,
            'e2e_samples': [c['text'] for c in cases[:4]]}
     return cov, list(violations.values())
